@@ -14,7 +14,7 @@ import (
 func init() { Registry["C12"] = checkC12 }
 
 func checkC12(p *core.Prog, r *core.Report) {
-	r.Explanation = "Decides structural necessary conditions of election safety on the acceptor side: (R1) every store to the acceptor's accepted number (ArbiterVoter.proposalId) in the proposal handlers happens under the voter mutex on a path that tested new > accepted, new > committed and 'no commit outstanding' (proposalHost empty); every store to the committed number (commitId) in the commit handlers happens under the mutex on a path that tested 'this is the accepted proposal' and new > committed; all other stores to the two numbers are listed lifecycle sites (constructor, load from saved metadata, configuration, leaving the set, the candidate's own bookkeeping after a majority); (R3) the candidate's vote / proposal / commit rounds succeed only with at least len(members)/2+1 answers; (R4) in DoVote a reply becomes the selected candidate only after the eligibility filter (data member, non-zero weight) for that reply, and replaces the selection only on newer log / greater weight / greater host; (R5) the proposal handlers refuse before accepting when the member's own log is newer (CompareAofId(own, proposed) > 0 for a voting data member). (R6) the acceptor's outstanding-commit marker (proposalHost) is cleared only at a closed list of points. (R7) the comparator of log positions weighs the id bytes the way the log writes them (file index major, record number minor). NOT decided: any interleaving of two candidates, message loss, that at most one winner emerges, persistence of the committed number across a restart (the candidate-side stores and the save points are listed, not proven), kill -9 of a real cluster."
+	r.Explanation = "Decides structural necessary conditions of election safety on the acceptor side: (R1) every store to the acceptor's accepted number (ArbiterVoter.proposalId) in the proposal handlers happens under the voter mutex on a path that tested new > accepted, new > committed and 'no commit outstanding' (proposalHost empty); every store to the committed number (commitId) in the commit handlers happens under the mutex on a path that tested 'this is the accepted proposal' and new > committed; all other stores to the two numbers are listed lifecycle sites (constructor, load from saved metadata, configuration, leaving the set, the candidate's own bookkeeping after a majority); (R3) the candidate's vote / proposal / commit rounds succeed only with at least len(members)/2+1 answers; (R4) in DoVote a reply becomes the selected candidate only after the eligibility filter (data member, non-zero weight) for that reply, and replaces the selection only on newer log / greater weight / greater host; (R5) the proposal handlers refuse before accepting when the member's own log is newer (CompareAofId(own, proposed) > 0 for a voting data member). (R6) the acceptor's outstanding-commit marker (proposalHost) is cleared only at a closed list of points. (R7) the comparator of log positions weighs the id bytes the way the log writes them (file index major, record number minor). (R8, shared with C16/R7) every list of log files built from FindAofFiles - including the one LoadMaxAofId scans from its end for the position a member restarts with - puts the snapshot before the append files. NOT decided: any interleaving of two candidates, message loss, that at most one winner emerges, persistence of the committed number across a restart (the candidate-side stores and the save points are listed, not proven), kill -9 of a real cluster."
 	r.Assumptions = []string{"Go type checker, go/ssa and VTA call graph are correct for /repo", "the voter mutex serialises the acceptor handlers"}
 	c12R1(p, r)
 	c12R3(p, r)
@@ -22,6 +22,7 @@ func checkC12(p *core.Prog, r *core.Report) {
 	c12R5(p, r)
 	c12R6(p, r)
 	c12R7(p, r)
+	logFileOrderRule(p, r, "C12/R8") // the position a member restarts with (LoadMaxAofId) reads the same list, newest last
 }
 
 // lifecycle stores of the two numbers outside the acceptor handlers
